@@ -449,7 +449,13 @@ def glitch_failures(prog, steps):
                         # read); the instance that was read is then the old one, and an instance without tracked inputs is never out of
                         # date in the sense of the property ("one whose tracked inputs changed since it was computed")
                         recreated = any(q["name"] == x and q["start"] > pos and dq > 0 for q, dq in zip(spans, depths))
-                        if recreated and not [d for d in prev.get(x, {}).get("deps", []) if d != "?"]:
+                        old_deps = [int(d) for d in prev.get(x, {}).get("deps", []) if d != "?"]
+                        if recreated and not old_deps:
+                            continue
+                        # ... and neither is an old instance none of whose tracked inputs was written or re-computed in this statement:
+                        # the new instance may hold another value only because of what it reads WITHOUT tracking
+                        touched = set(written_signals(stmt)) | {q["name"] for q in spans}
+                        if recreated and not (set(old_deps) & touched):
                             continue
                         # a selector is up to date up to its equality: an instance that kept its old value because the new one
                         # compared equal holds a different number than a freshly created instance would
